@@ -1,7 +1,7 @@
 (* Proofs/PhaseDivmodFloor.v -- C07, floor_divide / remainder / divmod: the FLOOR half, under an explicit specification of numpy's
    float floor_divide (an external routine: it is modelled in Model/PhaseDivmod.np_divmod and compared bit for bit with numpy on
    every run; here its assumed behaviour is the hypothesis fdiv_spec, not an axiom).  If floor_divide returns the exact floor of
-   the quotient of two doubles, then for every real phase with an integer count up to 2^40 and every divisor between 2^-10 and 2^10
+   the quotient of two doubles, then for every real phase with an integer count up to 2^39 and every divisor between 2^-10 and 2^10
    the branch returns an INTEGER quotient q and a remainder r with a = q d + r (2^-51) and -delta <= r < d + delta,
    delta = 2^-49 + 2^-52 d: the two passes do compute the floor, which the source marks "TODO: check this method is really correct". *)
 From Coq Require Import ZArith Reals Psatz Floats Bool List Lia.
@@ -12,7 +12,7 @@ From PB Require Import Proofs.TwoSumExact Model.Phase2 Model.PhaseOrd Model.Phas
 Open Scope R_scope.
 
 Definition fdiv_spec (fdiv : PrimFloat.float -> PrimFloat.float -> PrimFloat.float) : Prop :=
-  forall a b, fin a -> fin b -> bpow radix2 (-10) <= R_of b <= bpow radix2 10 -> Rabs (R_of a) <= bpow radix2 41 ->
+  forall a b, fin a -> fin b -> bpow radix2 (-10) <= R_of b <= bpow radix2 10 -> Rabs (R_of a) <= bpow radix2 40 ->
   fin (fdiv a b) /\ R_of (fdiv a b) = IZR (Zfloor (R_of a / R_of b)).
 
 Lemma floor_bounds x : IZR (Zfloor x) <= x < IZR (Zfloor x) + 1.
@@ -31,7 +31,7 @@ Section Floor.
   Hypothesis Fi : fin (p_int p).
   Hypothesis Ff : fin (p_frac p).
   Hypothesis Ek : R_of (p_int p) = IZR k.
-  Hypothesis Kk : (Z.abs k <= 2 ^ 40)%Z.
+  Hypothesis Kk : (Z.abs k <= 2 ^ 39)%Z.
   Hypothesis Bf : Rabs (R_of (p_frac p)) <= / 2 + bpow radix2 (-50).
   Hypothesis Fd : fin d.
   Hypothesis Bd : bpow radix2 (-10) <= R_of d <= bpow radix2 10.
@@ -39,23 +39,23 @@ Section Floor.
   Let D := R_of d.
   Let P10 : bpow radix2 10 = 1024. Proof. simpl. lra. Qed.
   Let Pm10 : bpow radix2 (-10) = / 1024. Proof. simpl. lra. Qed.
-  Let P40 : IZR (2 ^ 40) = 1099511627776. Proof. simpl. lra. Qed.
-  Let P41 : bpow radix2 41 = 2199023255552. Proof. simpl. lra. Qed.
+  Let P40 : IZR (2 ^ 39) = 549755813888. Proof. simpl. lra. Qed.
+  Let P41 : bpow radix2 40 = 1099511627776. Proof. simpl. lra. Qed.
 
   Lemma p_okph : ok_ph p.
   Proof.
     split; [exact Fi|]. split; [exact Ff|]. split; [|exact Bf]. rewrite Ek, <- abs_IZR.
-    apply Rle_trans with (IZR (2 ^ 40)); [apply IZR_le; exact Kk|]. apply Rle_trans with (bpow radix2 40); [simpl; lra|apply bpow_le; lia].
+    apply Rle_trans with (IZR (2 ^ 39)); [apply IZR_le; exact Kk|]. apply Rle_trans with (bpow radix2 39); [simpl; lra|apply bpow_le; lia].
   Qed.
 
-  Lemma Vp_bound : Rabs (V p) <= IZR (2 ^ 40) + 1.
+  Lemma Vp_bound : Rabs (V p) <= IZR (2 ^ 39) + 1.
   Proof.
     unfold V. rewrite Ek. apply Rle_trans with (1:=Rabs_triang _ _). rewrite <- abs_IZR.
-    assert (IZR (Z.abs k) <= IZR (2 ^ 40)) by (apply IZR_le; exact Kk). pose proof p50_half. lra.
+    assert (IZR (Z.abs k) <= IZR (2 ^ 39)) by (apply IZR_le; exact Kk). pose proof p50_half. lra.
   Qed.
 
   (* the remainder for an integer quotient F close to V/d *)
-  Lemma rem_for (fd : PrimFloat.float) (F : Z) : fin fd -> R_of fd = IZR F -> Rabs (D * IZR F) <= IZR (2 ^ 40) + 2048 ->
+  Lemma rem_for (fd : PrimFloat.float) (F : Z) : fin fd -> R_of fd = IZR F -> Rabs (D * IZR F) <= IZR (2 ^ 39) + 2048 ->
     exists rem, rem_of p d fd = Some rem /\ ok_ph rem /\ Rabs (V rem - (V p - D * IZR F)) <= bpow radix2 (-51).
   Proof.
     intros Ffd EF BF.
@@ -64,7 +64,7 @@ Section Floor.
       apply Rle_trans with 1; [|apply IZR_abs_ge1; exact N]. change 1 with (bpow radix2 0). apply bpow_le. lia. }
     assert (BfdR : Rabs (R_of fd) <= bpow radix2 400).
     { rewrite EF. apply Rle_trans with (bpow radix2 52); [|apply bpow_le; lia].
-      assert (X : Rabs (IZR F) <= 1024 * (IZR (2 ^ 40) + 2048)).
+      assert (X : Rabs (IZR F) <= 1024 * (IZR (2 ^ 39) + 2048)).
       { rewrite Rabs_mult in BF. assert (0 < Rabs D) by (apply Rabs_pos_lt; unfold D; lra).
         assert (/ 1024 <= Rabs D) by (rewrite Rabs_pos_eq by (unfold D; lra); unfold D; lra).
         pose proof (Rabs_pos (IZR F)). nra. }
@@ -79,12 +79,12 @@ Section Floor.
       split; [exact A2|]. split; [exact A3|]. split; [|exact A6].
       (* |count| <= |V rem| + |frac| *)
       rewrite EF in A5. fold D in A5.
-      assert (BV : Rabs (V rem) <= 2 * (IZR (2 ^ 40) + 2048)).
+      assert (BV : Rabs (V rem) <= 2 * (IZR (2 ^ 39) + 2048)).
       { pose proof Vp_bound. apply Rabs_le_inv in A5. apply Rabs_le_inv in H. apply Rabs_le_inv in BF.
         assert (0 < bpow radix2 (-51) <= 1) by (split; [apply bpow_gt_0|change 1 with (bpow radix2 0); apply bpow_le; lia]).
         apply Rabs_le. lra. }
       unfold V in BV. apply Rabs_le_inv in BV. apply Rabs_le_inv in A6. pose proof p50_half.
-      apply Rle_trans with (2 * (IZR (2 ^ 40) + 2048) + 1); [apply Rabs_le; lra|]. rewrite P40. simpl. lra.
+      apply Rle_trans with (2 * (IZR (2 ^ 39) + 2048) + 1); [apply Rabs_le; lra|]. rewrite P40. simpl. lra.
   Qed.
 
   Theorem divmod_floor (q : PrimFloat.float) (rem : ph) : op_divmod p d = Some (q, rem) ->
@@ -95,14 +95,14 @@ Section Floor.
     unfold op_divmod. pose proof p_okph as Hok. destruct (cycle_R p Hok) as (Ec & Fc & _).
     change (cycle p) with (cyc p) in Ec, Fc. set (c := cyc p) in *.
     pose proof Vp_bound as BV.
-    assert (Bc : Rabs (R_of c) <= IZR (2 ^ 40) + 1).
+    assert (Bc : Rabs (R_of c) <= IZR (2 ^ 39) + 1).
     { rewrite Ec. apply Rabs_le. apply Rabs_le_inv in BV. split.
-      - replace (- (IZR (2 ^ 40) + 1)) with (rnd (IZR (- (2 ^ 40 + 1)))) by (rewrite rnd_IZR by lia; rewrite opp_IZR, plus_IZR; reflexivity).
+      - replace (- (IZR (2 ^ 39) + 1)) with (rnd (IZR (- (2 ^ 39 + 1)))) by (rewrite rnd_IZR by lia; rewrite opp_IZR, plus_IZR; reflexivity).
         apply rnd_le. rewrite opp_IZR, plus_IZR. lra.
-      - replace (IZR (2 ^ 40) + 1) with (rnd (IZR (2 ^ 40 + 1))) by (rewrite rnd_IZR by lia; rewrite plus_IZR; reflexivity).
+      - replace (IZR (2 ^ 39) + 1) with (rnd (IZR (2 ^ 39 + 1))) by (rewrite rnd_IZR by lia; rewrite plus_IZR; reflexivity).
         apply rnd_le. rewrite plus_IZR. lra. }
     assert (Hvc : Rabs (R_of c - V p) <= / 2).
-    { rewrite Ec. apply Rle_trans with (bpow radix2 (41 - 54)); [apply (err_lt _ 41); [lia|]|apply Rle_trans with (bpow radix2 (-1)); [apply bpow_le; lia|simpl; lra]].
+    { rewrite Ec. apply Rle_trans with (bpow radix2 (40 - 54)); [apply (err_lt _ 40); [lia|]|apply Rle_trans with (bpow radix2 (-1)); [apply bpow_le; lia|simpl; lra]].
       apply Rle_lt_trans with (1:=BV). rewrite P40, P41. lra. }
     destruct (Hspec c d Fc Fd Bd ltac:(apply Rle_trans with (1:=Bc); rewrite P40, P41; lra)) as [Ffd Efd].
     set (fd := np_floor_divide c d) in *. set (F := Zfloor (R_of c / R_of d)) in *. fold D in F, Efd.
@@ -112,7 +112,7 @@ Section Floor.
     { destruct HF as [H1 H2]. split.
       - apply Rmult_le_reg_r with (/ D); [apply Rinv_0_lt_compat; exact Dpos|]. replace (D * IZR F * / D) with (IZR F) by (field; lra). exact H1.
       - apply Rmult_lt_reg_r with (/ D); [apply Rinv_0_lt_compat; exact Dpos|]. replace ((D * IZR F + D) * / D) with (IZR F + 1) by (field; lra). exact H2. }
-    assert (BDF : Rabs (D * IZR F) <= IZR (2 ^ 40) + 2048).
+    assert (BDF : Rabs (D * IZR F) <= IZR (2 ^ 39) + 2048).
     { apply Rabs_le_inv in Bc. apply Rabs_le. unfold D in *. lra. }
     destruct (rem_for fd F Ffd Efd BDF) as (r1 & E1 & Ok1 & A1). rewrite E1.
     (* the cycle of the first remainder *)
@@ -127,7 +127,7 @@ Section Floor.
     assert (Peta : 0 <= eta <= bpow radix2 (-60)) by (unfold eta; split; [apply bpow_ge_0|apply bpow_le; lia]).
     assert (P53 : 0 < bpow radix2 (-53) <= / 1024) by (split; [apply bpow_gt_0|apply Rle_trans with (bpow radix2 (-10)); [apply bpow_le; lia|simpl; lra]]).
     assert (P60 : bpow radix2 (-60) <= / 1024) by (apply Rle_trans with (bpow radix2 (-10)); [apply bpow_le; lia|simpl; lra]).
-    assert (Bc1 : Rabs (R_of c1) <= bpow radix2 41).
+    assert (Bc1 : Rabs (R_of c1) <= bpow radix2 40).
     { apply Rabs_le_inv in Hrho. apply Rabs_le_inv in BV1. rewrite P41. apply Rabs_le. unfold D in *. nra. }
     destruct (Hspec c1 d Fc1 Fd Bd Bc1) as [Ffdx Efdx].
     set (fdx := np_floor_divide c1 d) in *. set (G := Zfloor (R_of c1 / R_of d)) in *. fold D in G, Efdx.
@@ -157,7 +157,7 @@ Section Floor.
       { rewrite Efd, Efdx, <- plus_IZR. apply Rle_lt_trans with (bpow radix2 53); [|apply bpow_lt; lia].
         assert (X : (Z.abs (F + G) <= 2 ^ 53)%Z).
         { apply le_IZR. rewrite abs_IZR, plus_IZR. apply Rle_trans with (1:=Rabs_triang _ _).
-          assert (Rabs (IZR F) <= 1024 * (IZR (2 ^ 40) + 2048)).
+          assert (Rabs (IZR F) <= 1024 * (IZR (2 ^ 39) + 2048)).
           { rewrite Rabs_mult in BDF. assert (/ 1024 <= Rabs D) by (rewrite Rabs_pos_eq by lra; unfold D; lra). pose proof (Rabs_pos (IZR F)). nra. }
           assert (Rabs (IZR G) <= 1024 * (2 * (D + 1) + 2)).
           { rewrite Rabs_mult in Gbound. assert (/ 1024 <= Rabs D) by (rewrite Rabs_pos_eq by lra; unfold D; lra). pose proof (Rabs_pos (IZR G)). nra. }
@@ -166,14 +166,14 @@ Section Floor.
       rewrite Efd, Efdx, <- plus_IZR in Eq.
       assert (XFG : (Z.abs (F + G) <= 2 ^ 53)%Z).
       { apply le_IZR. rewrite abs_IZR, plus_IZR. apply Rle_trans with (1:=Rabs_triang _ _).
-        assert (Rabs (IZR F) <= 1024 * (IZR (2 ^ 40) + 2048)).
+        assert (Rabs (IZR F) <= 1024 * (IZR (2 ^ 39) + 2048)).
         { rewrite Rabs_mult in BDF. assert (/ 1024 <= Rabs D) by (rewrite Rabs_pos_eq by lra; unfold D; lra). pose proof (Rabs_pos (IZR F)). nra. }
         assert (Rabs (IZR G) <= 1024 * (2 * (D + 1) + 2)).
         { rewrite Rabs_mult in Gbound. assert (/ 1024 <= Rabs D) by (rewrite Rabs_pos_eq by lra; unfold D; lra). pose proof (Rabs_pos (IZR G)). nra. }
         rewrite P40 in *. unfold D in *. simpl. lra. }
       rewrite rnd_IZR in Eq by exact XFG.
       set (fd2 := PrimFloat.add fd fdx) in *.
-      assert (BDFG : Rabs (D * IZR (F + G)) <= IZR (2 ^ 40) + 2048).
+      assert (BDFG : Rabs (D * IZR (F + G)) <= IZR (2 ^ 39) + 2048).
       { rewrite plus_IZR, Rmult_plus_distr_l. apply Rabs_le_inv in Hrho. apply Rabs_le_inv in A1. apply Rabs_le_inv in BV.
         assert (0 < bpow radix2 (-51) <= / 4) by (split; [apply bpow_gt_0|apply Rle_trans with (bpow radix2 (-2)); [apply bpow_le; lia|simpl; lra]]).
         apply Rabs_le. unfold D in *. split; nra. }
